@@ -455,6 +455,10 @@ def b_isinstance(E, args, node):
             return True
         if q == 'pandas.DataFrame' and isinstance(v, Frame):
             return True
+        if q == 'pandas.DataFrame' and isinstance(v, Opaque) and getattr(getattr(v, 'arr', None), 'elem_kind', None) == 'table':
+            return True             # an element of a (nested) list declared to hold tables
+        if q == 'pandas.DataFrame' and isinstance(v, Arr) and getattr(v, 'elem_kind', None) == 'table':
+            return False            # a list of tables is not a table
         if q not in ('builtins.dict', 'builtins.list', 'numpy.ndarray', 'pandas.DataFrame'):
             raise Unsupported('isinstance against %s' % q)
     if isinstance(v, Opt):
@@ -477,6 +481,13 @@ def b_range(E, args, node):
 @libfn('builtins.enumerate')
 def b_enumerate(E, args, node):
     return ('enumerate', args.pos[0])
+
+
+@libfn('itertools.product')
+def it_product(E, args, node):
+    if len(args.pos) != 2 or args.kw:
+        raise Unsupported('itertools.product variant')
+    return ('product',) + tuple(args.pos)
 
 
 @libfn('builtins.zip')
@@ -1272,7 +1283,8 @@ def pd_dataframe(E, args, node):
 def pd_concat(E, args, node):
     objs = args.pos[0]
     axis = args.kw.get('axis', 0)
-    items = objs.items if isinstance(objs, PyList) else list(objs)
+    from . import grid as _g0
+    items = objs.items if isinstance(objs, PyList) else ([] if _g0.is_grid(objs) else list(objs))
     if axis == 1 and all(isinstance(f, Frame) for f in items):
         n = items[0].n
         cols = {}
@@ -1299,6 +1311,10 @@ def pd_concat(E, args, node):
                 raise Unsupported('duplicate column %s in concat' % c)
             cols[c] = E.snapshot(a, kind='series')
         return Frame(E.new_ident(), n if not isinstance(n, int) else z3.IntVal(n), cols)
+    from . import grid as _g
+    if _g.is_grid(objs) and objs.lead == 1 and getattr(objs, 'elem_kind', None) == 'table' and axis == 0:
+        # group level: the row-wise concatenation of a list of opaque tables, in list order
+        return _g._opq(_g.CONCAT_ROWS(_g.rows_term(E, objs)))
     raise Unsupported('pd.concat variant')
 
 
